@@ -2,6 +2,7 @@ package util
 
 import (
 	"context"
+	"errors"
 	"fmt"
 	"github.com/markusressel/fan2go/internal/ui"
 	"os/exec"
@@ -26,8 +27,12 @@ func SafeCmdExecution(executable string, args []string, timeout time.Duration) (
 	}
 
 	if err != nil {
-		exitError := err.(*exec.ExitError)
-		ui.Warning("Command failed to execute: %s: %s", executable, string(exitError.Stderr))
+		var exitError *exec.ExitError
+		if errors.As(err, &exitError) {
+			ui.Warning("Command failed to execute: %s: %s", executable, string(exitError.Stderr))
+		} else {
+			ui.Warning("Command failed to execute: %s: %v", executable, err)
+		}
 		return "", err
 	}
 
